@@ -94,6 +94,7 @@ OnIssue(ev) ==
   /\ Chk("issue.refuse.reserved", isobj /\ reserved, ~ok)
   /\ Chk("issue.refuse.nonobject", ~isobj, ~ok)
   /\ Chk("issue.accept", isobj /\ ~reserved /\ ~bad, ok)
+  /\ Chk("hist.expect", ev.hexpect # "", ev.out.st = ev.hexpect)
   /\ Chk("issue.wellformed", ok, good)
   /\ IF good THEN
        /\ Chk("issue.exact", TRUE, IssueExact(U, S, ev.hkjwk, pl, D))
@@ -149,6 +150,7 @@ OnPresent(ev) ==
   IN
   /\ Total(ev)
   /\ Chk("present.ok", known /\ KnownGood(inm) /\ tc /\ (kbAll \/ kbNone), ok)
+  /\ Chk("hist.expect", ev.hexpect # "", ev.out.st = ev.hexpect)
   /\ IF good THEN
        /\ Chk("present.exact", tc, PresentExact(inm, ev.sel, outm))
        /\ Chk("present.weak", inm.jwt.pl # NONE /\ IsObj(inm.jwt.pl), PresentWeak(inm, outm))
